@@ -928,6 +928,8 @@ fn run_engine(cli: &Cli, report: &Report) {
         // entries: create, write beyond the end, resize, read back; iterators and locks
         special.push((p, vec![c(F::StateCreateEntry, &[KEYS as u64 + 3, 1]), Call { f: F::StateEntryWrite, args: vec![Arg::Res(0), Arg::C(SRC as u64), Arg::C(8), Arg::C(0)] }, Call { f: F::StateEntryWrite, args: vec![Arg::Res(0), Arg::C(SRC as u64), Arg::C(4), Arg::C(9)] }, Call { f: F::StateEntryWrite, args: vec![Arg::Res(0), Arg::C(SRC as u64), Arg::C(4), Arg::C(8)] }, Call { f: F::StateEntryRead, args: vec![Arg::Res(0), Arg::C(SCRATCH as u64), Arg::C(32), Arg::C(2)] }, Call { f: F::StateEntrySize, args: vec![Arg::Res(0)] }]));
         special.push((p, vec![c(F::StateIteratePrefix, &[KEYS as u64, 1]), c(F::StateCreateEntry, &[KEYS as u64, 2]), c(F::StateDeleteEntry, &[KEYS as u64, 1]), c(F::StateDeletePrefix, &[KEYS as u64, 0]), Call { f: F::StateIteratorDelete, args: vec![Arg::Res(0)] }, c(F::StateDeleteEntry, &[KEYS as u64, 1]), Call { f: F::StateIteratorNext, args: vec![Arg::Res(0)] }, Call { f: F::StateIteratorDelete, args: vec![Arg::Res(0)] }]));
+        // an iterator run to exhaustion, then asked for its key, advanced again and deleted
+        special.push((p, vec![c(F::StateIteratePrefix, &[KEYS as u64, 1]), Call { f: F::StateIteratorNext, args: vec![Arg::Res(0)] }, Call { f: F::StateIteratorNext, args: vec![Arg::Res(0)] }, Call { f: F::StateIteratorNext, args: vec![Arg::Res(0)] }, Call { f: F::StateIteratorKeySize, args: vec![Arg::Res(0)] }, Call { f: F::StateIteratorKeyRead, args: vec![Arg::Res(0), Arg::C(SCRATCH as u64), Arg::C(8), Arg::C(0)] }, Call { f: F::StateIteratorNext, args: vec![Arg::Res(0)] }, Call { f: F::StateIteratorDelete, args: vec![Arg::Res(0)] }]));
         // an entry deleted under a live handle
         special.push((p, vec![c(F::StateLookupEntry, &[KEYS as u64, 2]), c(F::StateDeleteEntry, &[KEYS as u64, 2]), Call { f: F::StateEntrySize, args: vec![Arg::Res(0)] }, Call { f: F::StateEntryRead, args: vec![Arg::Res(0), Arg::C(SCRATCH as u64), Arg::C(4), Arg::C(0)] }, Call { f: F::StateEntryWrite, args: vec![Arg::Res(0), Arg::C(SRC as u64), Arg::C(4), Arg::C(0)] }, Call { f: F::StateEntryResize, args: vec![Arg::Res(0), Arg::C(3)] }]));
     }
@@ -1077,6 +1079,27 @@ fn run_engine(cli: &Cli, report: &Report) {
     report.set_extra("script_cases", json!(scripts.len()));
     let p7 = ctx(P7);
     scripts.par_iter().for_each(|s| check_script(report, s, &p7, &mem0, false));
+    if !quick {
+        // thorough: the pairs once more under the oldest parameter set (limits on, no queries), and
+        // all scripts of four state operations over the well-formed half of the state alphabet
+        let p4 = ctx(P4);
+        scripts.par_iter().take(pairs).for_each(|s| check_script(report, s, &p4, &mem0, false));
+        let core: Vec<Call> = state_atoms.iter().filter(|a| a.args.iter().all(|x| !matches!(x, Arg::C(v) if *v >= 0xFFFF))).cloned().collect();
+        let mut quads: Vec<Script> = vec![];
+        for a in &core {
+            for b in &core {
+                for cc in &core {
+                    for d in &core {
+                        let mut s = prefix();
+                        s.extend([a.clone(), b.clone(), cc.clone(), d.clone()]);
+                        quads.push(s);
+                    }
+                }
+            }
+        }
+        report.set_extra("state_quadruple_cases", json!({"alphabet": core.len(), "scripts": quads.len()}));
+        quads.par_iter().for_each(|s| check_script(report, s, &p7, &mem0, false));
+    }
     // ---- layer 4: interrupts answered and resumed; call depth ---------------------------------
     resume::run_resume(report, cli.tier, &mem0, &atoms);
     // ---- the legacy (v0) interface -------------------------------------------------------------
